@@ -1,4 +1,5 @@
 """C17 - saved normalisation statistics reload to the same transform."""
+import contextlib
 import os
 import tempfile
 
@@ -191,9 +192,23 @@ def reload_cases(kind):
             if kind == "npz" and draw(st.sampled_from([True, True, False])) else [],
             "ops": ops,
             "apply_seed": draw(st.integers(0, 2 ** 16)),
+            "bare_name": draw(st.sampled_from([False, False, False, True])),
         }
 
     return cases
+
+
+@contextlib.contextmanager
+def _cwd(d):
+    if d is None:
+        yield
+        return
+    old = os.getcwd()
+    os.chdir(d)
+    try:
+        yield
+    finally:
+        os.chdir(old)
 
 
 def check_reload(case):
@@ -214,8 +229,11 @@ def check_reload(case):
     total = data.astype(np.float64).sum(axis=0)
     labels = ["file=" + fname, "dtype=" + spec["dtype"], "norm_var" if nv else "mean_only"]
     n_saves, acc_between = 0, False
-    with tempfile.TemporaryDirectory(prefix="verif_c17_") as td:
-        path = os.path.join(td, fname)
+    with tempfile.TemporaryDirectory(prefix="verif_c17_") as td, _cwd(td if case.get("bare_name") else None):
+        # a target in the current directory may be given as a bare file name (no directory part)
+        path = fname if case.get("bare_name") else os.path.join(td, fname)
+        if case.get("bare_name"):
+            labels.append("bare-file-name")
         before = {}
         if kind == "npz" and case.get("pre"):
             before = {k: foreign_value(k) for k in case["pre"]}
